@@ -340,6 +340,8 @@ def run_C17(ctx, E):
 def run_C19(ctx, E):
     ctx.exhaustive = True
     stage_mc_replay(ctx, E, "grid", "C19_MC", "C19_MC_%s.cfg" % ctx.tier, timeout=3000, heap="24g")
+    if ctx.tier == "thorough":
+        stage_mc_replay(ctx, E, "fullgrid", "C19_MC", "C19_MC_thorough_grid.cfg", timeout=3000, heap="24g")
     stage_record_trace(ctx, E, "calls", "C19_Trace", "C19_Trace.cfg", heap="8g")
 
 
@@ -364,12 +366,12 @@ def run_C14(ctx, E):
 
 
 def run_C16(ctx, E):
-    stage_mc_replay(ctx, E, "listings", "C16_MC", "C16_MC.cfg")
+    stage_mc_replay(ctx, E, "listings", "C16_MC", "C16_MC.cfg", workers=1)
     stage_record_trace(ctx, E, "listings", "C16_Trace", "C16_Trace.cfg", heap="16g")
 
 
 def run_C01(ctx, E):
-    stage_mc_replay(ctx, E, "layouts", "C01_MC", "C01_MC.cfg")
+    stage_mc_replay(ctx, E, "layouts", "C01_MC", "C01_MC.cfg", workers=1)   # long lines: one writer
     stage_record_trace(ctx, E, "files", "C01_Trace", "C01_Trace.cfg", heap="16g", timeout=3000)
 
 
@@ -500,7 +502,7 @@ PROPS = {
                           "monotonicity theorems; every (oligo, grid point) replayed on primers.SantaLucia / MeltingTemp "
                           "/ MarmurDoty; TLC trace validation of random oligos to 200 nt and concentration sweeps",
                 level_text="every A/C/G/T oligo of length 2..6 (quick) / 2..8 (thorough) is a TLC state, evaluated at 27 "
-                           "(125) grid points of oligo 1 nM..1 mM x sodium 1 mM..1 M x magnesium 0..100 mM: the real dH "
+                           "grid points (thorough: also every oligo to length 6 at all 280 grid points) of oligo 1 nM..1 mM x sodium 1 mM..1 M x magnesium 0..100 mM: the real dH "
                            "must match exactly (0.1 kcal), dS within 0.01 + 0.0004 (N-1) cal/K, Tm within 0.05 K; "
                            "MeltingTemp must equal SantaLucia at the default conditions bit for bit, MarmurDoty the "
                            "formula, all results bit-identical in lower and mixed case; recorded calls on random oligos to "
